@@ -3,6 +3,7 @@
 read back through mitmproxy.io.FlowReader)."""
 import json
 import os
+import re
 import tempfile
 import zlib
 
@@ -194,6 +195,38 @@ def _gen_flow(rng, mutated):
         elif r < 0.98 and mutated:
             rh.insert(0, (b"Host", hp))
             rh.append((b"host", hp))
+    if rng.chance(0.18):
+        # Host / :authority that DISAGREES with the connection's host and port (reverse, transparent, port-forwarding setups)
+        rh = [x for x in rh if x[0].lower() != b"host"]
+        auth = b""
+        kind = rng.below(8)
+        if kind == 0:                                   # Host without port, upstream on a non-default port
+            port = rng.choice([8080, 8443, 3000, 80 if scheme == "https" else 443])
+            hh = host.encode()
+        elif kind == 1:                                 # Host with a port different from the upstream port
+            hh = (host + ":" + str(rng.choice([p for p in (8080, 8443, 81, 444) if p != port]))).encode()
+        elif kind == 2:                                 # different host, no port
+            hh = b"shop.example"
+            port = rng.choice([port, 8080])
+        elif kind == 3:                                 # different host and port
+            hh = b"shop.example:" + str(rng.choice([8080, 9443, dport])).encode()
+        elif kind == 4:                                 # IPv6 literal in the header
+            hh = rng.choice([b"[::1]", b"[::1]:8080", b"[2001:db8::1]", b"[2001:db8::1]:" + str(dport).encode()])
+        elif kind == 5:                                 # IPv6 literal as connection host, name in the header
+            host = rng.choice(["::1", "2001:db8::1"])
+            hh = rng.choice([b"v6.example", b"v6.example:8080"])
+        elif kind == 6:                                 # IPv6 connection host, no header at all
+            host = "::1"
+            port = rng.choice([dport, 8080])
+            hh = None
+        else:                                           # no header, non-default port
+            port = rng.choice([8080, 8443])
+            hh = None
+        if hh is not None:
+            if ver in ("HTTP/2.0", "HTTP/3") and rng.chance(0.8):
+                auth = hh
+            else:
+                rh.insert(0, (rng.choice([b"Host", b"host"]), hh))
     if method == "CONNECT":
         path = b""
         auth = (host + ":" + str(port)).encode()
@@ -324,6 +357,15 @@ def setup_impl():
         def b64decode(s):
             return rec("b64d", (s,), lambda: real_b64d(s))
 
+    real_pa, real_unparse = urlmod.parse_authority, urlmod.unparse
+
+    def w_pa(authority, check):
+        return rec("pauth", (authority, check), lambda: real_pa(authority, check))
+
+    def w_unparse(scheme, host, port, path):
+        return rec("unparse", (scheme, host, port, path), lambda: real_unparse(scheme, host, port, path))
+
+    urlmod.parse_authority, urlmod.unparse = w_pa, w_unparse
     enc_mod.decode, enc_mod.encode = w_dec, w_enc
     http.infer_content_encoding = w_infer
     har_mod.infer_content_encoding = w_infer
@@ -482,7 +524,8 @@ def _cut_candidates(b: bytes):
 def _tables(flows, obs, rec):
     """results of the abstract codec library on every argument the run used (recorded) plus the unpatchable builtins
     (bytes.decode / str.encode with utf-8) evaluated on every byte string / text that occurs in the run"""
-    t = {"dec": [], "enc": [], "infer": [], "b64e": [], "b64d": [], "utf8": [], "decse": [], "encse": [], "url": [], "ctfix": []}
+    t = {"dec": [], "enc": [], "infer": [], "b64e": [], "b64d": [], "utf8": [], "decse": [], "encse": [], "url": [], "ctfix": [],
+         "auth": [], "pauth": [], "unparse": []}
     seen = set()
     blobs, texts, cts, hdrs = set(), set(), set(), set()
 
@@ -511,6 +554,10 @@ def _tables(flows, obs, rec):
             blobs.add(args[0])
         elif kind == "b64d":
             put("b64d", _cps(args[0]), [_cps(args[0]), r])
+        elif kind == "pauth" and res[0] == "ok" and isinstance(args[0], str) and args[1] is False:
+            put("pauth", args[0], [hx(_se(args[0])), hx(_se(res[1][0])), res[1][1]])
+        elif kind == "unparse" and res[0] == "ok" and all(isinstance(a, str) for a in (args[0], args[1], args[3])):
+            put("unparse", list(args), [hx(_se(args[0])), hx(_se(args[1])), args[2], hx(_se(args[3])), _cps(res[1])])
     for fl in flows:
         if isinstance(fl, http.HTTPFlow):
             for m in (fl.request, fl.response):
@@ -518,6 +565,9 @@ def _tables(flows, obs, rec):
                     if m.raw_content is not None:
                         blobs.add(m.raw_content)
                     cts.add(m.headers.get("content-type", ""))
+            a = _se(fl.request.authority)
+            put("auth", hx(fl.request.data.authority), [hx(fl.request.data.authority), hx(a)])
+            blobs.add(a)
     for e in obs["entries"]:
         for lst in (e["rh"], e["sh"]):
             for k, v in lst:
@@ -652,6 +702,10 @@ def coq_case(case, obs):
     tab("encse", [f"({S(x[0])}, {_cres(x[1], val)})" for x in t["encse"]], "(str * res val)")
     tab("url", [f"({S(x[0])}, {_cres(x[1], lambda p: cpair(B(p[0]), S(p[1])))})" for x in t["url"]], "(str * res (bytes * str))")
     tab("ctfix", [f"({B(x[0])}, {B(x[1])})" for x in t["ctfix"]], "(bytes * bytes)")
+    tab("auth", [f"({B(x[0])}, {B(x[1])})" for x in t["auth"]], "(bytes * bytes)")
+    tab("pauth", [f"({B(x[0])}, ({B(x[1])}, {'(@None N)' if x[2] is None else '(Some ' + cN(x[2]) + ')'}))" for x in t["pauth"]],
+        "(bytes * (bytes * option N))")
+    tab("unparse", [f"({B(x[0])}, {B(x[1])}, {cN(x[2])}, {B(x[3])}, {S(x[4])})" for x in t["unparse"]], "(bytes * bytes * N * bytes * str)")
     tables = "(mkTables " + " ".join(parts) + ")"
 
     flows = []
@@ -662,7 +716,8 @@ def coq_case(case, obs):
         r = f["resp"]
         resp = "(@None response)" if r is None else \
             f"(Some (mkResponse {cN(r['status'])} {P.B(r['ver'].encode())} {fields(r['h'])} {ob(r['b'])}))"
-        flows.append(f"(HttpFlow (mkRequest {P.B(f['method'].encode())} {S(pu)} {P.B(f['ver'].encode())} "
+        flows.append(f"(HttpFlow (mkRequest {P.B(f['method'].encode())} {P.B(f['scheme'].encode())} {P.B(f['host'].encode())} "
+                     f"{cN(f['port'])} {B(f['path'])} {B(f['auth'])} {P.B(f['ver'].encode())} "
                      f"{fields(f['rh'])} {ob(f['rb'])}) {resp})")
     if obs["export_error"] is not None:
         return P.wrap(f"ExportCrash {tables} {clist(flows, 'flow')}")
@@ -688,6 +743,40 @@ def _valid_utf8(b: bytes) -> bool:
         return True
     except UnicodeDecodeError:
         return False
+
+
+_SIMPLE_AUTH = re.compile(r"^([A-Za-z0-9.-]+|\[[0-9A-Fa-f:]+\])(?::([1-9][0-9]{0,4}))?$")
+
+
+def _ref_pretty_url(f):
+    """reference, from the case alone: the URL the client asked for.  Host and port come from the Host header (HTTP/2, HTTP/3:
+    :authority, else Host), a header without port meaning the scheme's default port; without such a header they are the
+    connection's.  None when the header is not a plain name/IPv4/bracketed IPv6 with optional port (left to the correspondence)."""
+    if f["method"].upper() == "CONNECT":
+        return None
+    hosts = [unhx(v) for k, v in f["rh"] if unhx(k).lower() == b"host"]
+    if len(hosts) > 1:
+        return None
+    hh = hosts[0] if hosts else b""
+    if f["ver"] in ("HTTP/2.0", "HTTP/3") and f["auth"]:
+        hh = unhx(f["auth"])
+    dflt = {"http": 80, "https": 443}[f["scheme"]]
+    try:
+        path = unhx(f["path"]).decode("ascii")
+    except UnicodeDecodeError:
+        return None
+    if path == "*":
+        path = ""
+    if hh:
+        m = _SIMPLE_AUTH.match(hh.decode("latin-1"))
+        if not m or "xn--" in m.group(1).lower():
+            return None
+        host, port = m.group(1), int(m.group(2)) if m.group(2) else dflt
+    else:
+        host, port = f["host"], f["port"]
+        if ":" in host:
+            host = "[" + host + "]"
+    return f"{f['scheme']}://{host}" + ("" if port == dflt else f":{port}") + path
 
 
 def _ref_normalise_url(u: str) -> str:
@@ -793,6 +882,11 @@ def oracle(case, obs):
             break
         i = imps[idx]
         tag = f"flow {idx} ({f['method']} {f['ver']}): "
+        ref = _ref_pretty_url(f)
+        exported = "".join(map(chr, obs["entries"][idx]["url"]))
+        if ref is not None and exported != ref:
+            add("unexpected-exported-url", tag + f"exported url {exported!r}, but the request's URL as seen by the client (scheme, host and "
+                                                 f"port of the Host/:authority header, else of the connection) is {ref!r}")
         if i["method"] != o["method"]:
             add("unexpected-method", tag + f"method {o['method']!r} -> {i['method']!r}")
         if i["url"] != o["url"]:
